@@ -2683,6 +2683,11 @@ def check(ctx):
     _rule3(ctx, rep)
     _rule4(ctx, rep, ranges)
     _rule5(ctx, rep)
+    shared.borrow(ctx, rep, [
+        ('c03', lambda m: m.rule2(ctx, rep), 'a released job that falls out of the batch never runs: the reprocessing is incomplete'),
+        ('c09', lambda m: m.rule4(ctx, rep, m.Facts(ctx)), 'update() walks the algorithm-level tree: a consumer edge lost by Node.trim is a consumer never run again'),
+        ('c06', lambda m: m.rule3(ctx, rep, m.Facts(ctx, rep)), 'a consumer run again must load what the producer just stored, not an entry picked by its own run id'),
+    ])
     return rep
 
 
